@@ -395,6 +395,43 @@ def shared_static_with_adaptive_case(order):
     return Case(name, body, goals, family="share_static_sampler_with_adaptive_condition", params=dict(order=order))
 
 
+def shared_keyword_defaults_case(ctype):
+    """two data functions and the residual of ONE condition each declare an optional argument named k with a different
+    default: every function computes with its OWN default (they are all evaluated on the same coordinates mapping)"""
+    name = "share_keyword_defaults/%s" % ctype
+
+    def body(env):
+        W = build_world(env, ("x",))
+        smp = K.FixedSampler(K.fixed_points(env, "ptsK", ("x",), DIMS, 2))
+        rec = []
+
+        def f(x, k=2.0):
+            return x * k
+
+        def g(x, k=5.0):
+            return x * k
+
+        def residual(u, x, f, g, k=7.0):
+            rec.append(dict(f=f, g=g, k=k, x=x))
+            return u + f + g
+
+        cls = C.PINNCondition if ctype == "pinn" else C.MeanCondition
+        cnd = cls(W.model, smp, residual, data_functions={"f": f, "g": g})
+        cnd()
+        cnd()
+        return dict(rec=rec)
+
+    def goals(o, L, env):
+        yield "two_evaluations", len(o["rec"]) == 2
+        for j, r in enumerate(o["rec"]):
+            yield "residual_keeps_its_own_default[eval%d]" % j, r["k"] == 7.0
+            for i in range(len(r["x"])):
+                yield "f_uses_its_own_default[eval%d,row%d]" % (j, i), L.eq(r["f"][i][0], 2 * r["x"][i][0])
+                yield "g_uses_its_own_default[eval%d,row%d]" % (j, i), L.eq(r["g"][i][0], 5 * r["x"][i][0])
+
+    return Case(name, body, goals, family="share_keyword_defaults", params=dict(ctype=ctype))
+
+
 def _pristine(sn):
     """default containers must still be what the signature shows: empty dicts, Points without variables"""
     if sn[0] == "dict":
@@ -620,6 +657,8 @@ def cases(tier):
         cs.append(shared_base_sampler_case(order))
     for order in ("pinn_first", "adaptive_first"):
         cs.append(shared_static_with_adaptive_case(order))
+    for ctype in ("pinn", "mean"):
+        cs.append(shared_keyword_defaults_case(ctype))
     # ---- periodic sides --------------------------------------------------------------------------------
     for nonper in ("default", "empty_static", "fixed", "fixed_static"):
         cs.append(periodic_sides_case(nonper))
